@@ -155,12 +155,104 @@ def st_token_sample(ctx, n, shapes, tokens, label="toksample", lo=3, hi=9):
     return out
 
 
+
+# ---------------------------------------------------------------- length boundaries
+
+LEN_BOUNDS = [15, 16, 22, 23, 24, 25, 31, 32, 33, 63, 64, 65, 127, 128, 129, 130, 131, 132, 255, 256, 257]
+LONG_SLOTS = ["type", "ns", "ns2", "name", "ver", "qkey", "qval", "ckalg", "ckhex", "sub", "sub2"]
+
+
+def long_piece(L, variant):
+    """a component spelling of raw length L: plain / raw non-ASCII / an escape at the start, middle or end"""
+    if variant == "plain":
+        return ("ab" * L)[:L]
+    if variant == "upper":
+        return ("aB" * L)[:L]
+    if variant == "nonascii":
+        return "é" * (L // 2) + ("a" if L % 2 else "")
+    esc = {"slash0": "%2F", "slashM": "%2f", "slashE": "%2F", "pct41": "%41", "bad": "%zz", "dots": "..."}[variant]
+    fill = max(0, L - len(esc))
+    if variant == "slash0":
+        return esc + ("ab" * fill)[:fill]
+    if variant in ("slashE", "bad"):
+        return ("ab" * fill)[:fill] + esc
+    h = fill // 2
+    return ("ab" * fill)[:h] + esc + ("ab" * fill)[h:fill]
+
+
+def long_string(slot, L, variant, ty="t"):
+    x = long_piece(L, variant)
+    hexd = ("0a1B" * L)[:L]
+    parts = {"type": ty, "ns": "n", "name": "nm", "ver": "1", "q": "k=v", "sub": "s"}
+    if slot == "type":
+        parts["type"] = ("t" + x.replace("%", "").replace(".", ""))[:L] if variant in ("plain", "upper") else x
+    elif slot == "ns":
+        parts["ns"] = x
+    elif slot == "ns2":
+        parts["ns"] = "a/" + x + "/b"
+    elif slot == "name":
+        parts["name"] = x
+    elif slot == "ver":
+        parts["ver"] = x
+    elif slot == "qkey":
+        parts["q"] = ("k" + x)[:L] + "=v" if variant in ("plain", "upper") else x + "=v"
+    elif slot == "qval":
+        parts["q"] = "k=" + x
+    elif slot == "ckalg":
+        parts["q"] = "checksum=" + x + ":00"
+    elif slot == "ckhex":
+        parts["q"] = "checksum=sha512:" + (hexd if variant in ("plain", "upper") else hexd[:-1] + "z" if variant == "bad" else hexd + ",b:" + hexd)
+    elif slot == "sub":
+        parts["sub"] = x
+    elif slot == "sub2":
+        parts["sub"] = "a/" + x + "/b"
+    return "pkg:%s/%s/%s@%s?%s#%s" % (parts["type"], parts["ns"], parts["name"], parts["ver"], parts["q"], parts["sub"])
+
+
+def st_long(ctx, shapes, label="long", every=False):
+    """every component at raw lengths around the usual capacity boundaries (inline-string capacity, 64/128/256-byte
+    buffers), plain and with an escape at the start / middle / end; the thorough tier walks every length up to 300"""
+    out = []
+    lens = list(range(0, 301)) if every else [l + d for l in LEN_BOUNDS for d in (0,)]
+    variants = ["plain", "upper", "nonascii", "slash0", "slashM", "slashE", "pct41", "bad", "dots"]
+    r = ctx.rng(label)
+    for slot in LONG_SLOTS:
+        for L in lens:
+            for v in variants:
+                if not every and v in ("upper", "pct41", "dots") and L not in (23, 24, 64, 65, 128, 130):
+                    continue
+                ty = r.pick(["t", "maven", "nuget", "pypi", "npm", "golang"])
+                s = long_string(slot, L, v, ty)
+                sh = r.pick(shapes)
+                out.append(case("parse %s %s" % (sh, hx(s)), "long", s=s, shape=sh))
+    return out
+
+
+def st_long_api(ctx, label="long-api"):
+    """the same boundaries through the builder, the qualifier API and the Checksum API"""
+    out = []
+    for L in LEN_BOUNDS:
+        x = long_piece(L, "plain")
+        hexd = ("0a1B" * L)[:L]
+        nb = "ab" * L                        # L bytes, as hex
+        for sh in ("S", "P", "M"):
+            ty = "Maven" if sh == "P" else hx("t")
+            out.append(case("build %s %s %s ns:%s;ver:%s;sub:%s;q:%s:%s" % (sh, ty, hx(x), hx(x), hx(x), hx(x + "/" + x), hx("k"), hx(x)), "long", shape=sh))
+            out.append(case("build %s %s %s q:%s:%s" % (sh, ty, hx("n"), hx("checksum"), hx("sha512:" + hexd)), "long", shape=sh))
+            out.append(case("build %s %s %s q:%s:%s" % (sh, ty, hx("n"), hx(("k" + x)[:L]), hx("v")), "long", shape=sh))
+        out.append(case("quals ins:%s:%s;ins:%s:%s;get:%s;iter" % (hx(("k" + x)[:L]), hx(x), hx("checksum"), hx("a:" + hexd), hx(("K" + x.upper())[:L])), "long"))
+        out.append(case("cksum ins:%s:%s;ins:%s:%s;text;iter;rt" % (hx("sha512"), nb, hx(x), nb[:8]), "long"))
+    return out
+
 # ---------------------------------------------------------------- builder scripts
 
-VALUE_UNIVERSE = ["", "a", "A", "a/b", "/", "//a//", "a/./b/../c", "..", ".", "x y", "a&b=c", "a%2Fb", "%", "@1", "?q#f", "é", "ǅ",
+VALUE_UNIVERSE = ["", "a", "A", "a/b", "...", "a/.../b", "..../x", "x/.....", "/", "//a//", "a/./b/../c", "..", ".", "x y", "a&b=c", "a%2Fb", "%", "@1", "?q#f", "é", "ǅ",
                   "İK", "A_.-b", "1.0", "sha1:AB,md5:00", "sha1:zz", "a:0", ":", "\x00\x7f", "+", "😀"]
 KEY_UNIVERSE = ["a_b", "aab", "AAB", "A_B", "a_", "aa", "k", "K", "key", "Key", "checksum", "Checksum", "CHECKSUM", "repository_url", "a.b", "a-b", "a_b", "1a", "", "a b",
                 "é", "k%41", "a=b", "zz", "type"]
+
+
+KEY_HEAVY = ["a", "arch", "b", "c", "classifier", "distro", "epoch", "os", "type", "vcs_url", "repository_url", "zz", "a_b", "aab", "k", "Key"]
 
 
 def rand_value(r):
@@ -222,7 +314,20 @@ def rand_builder_case(r, shape, maxsteps=6):
     ty = rand_type_tok(r, shape)
     name = hx(rand_value(r) if r.chance(1, 3) else rand_text(r, 1, 5))
     n = r.below(maxsteps + 1)
-    steps = [rand_builder_step(r, shape) for _ in range(n)]
+    if r.chance(1, 5):
+        # qualifier-heavy: several distinct keys, then removals from the front / middle, then anything
+        ks = []
+        for k in [r.pick(KEY_HEAVY) for _ in range(3 + r.below(3))]:
+            if k.lower() not in [x.lower() for x in ks]:
+                ks.append(k)
+        steps = ["q:%s:%s" % (hx(k), hx(r.pick(["1", "v", "x y", "é"]))) for k in ks]
+        for _ in range(1 + r.below(2)):
+            k = r.pick(sorted(ks, key=str.lower)[:max(1, len(ks) - 1)])
+            k = k.upper() if r.chance(1, 3) else k
+            steps.append(r.pick(["-q:" + hx(k), "pq:rm." + hx(k), "q:%s:%s" % (hx(k), "")]))
+        steps += [rand_builder_step(r, shape) for _ in range(r.below(3))]
+    else:
+        steps = [rand_builder_step(r, shape) for _ in range(n)]
     script = ";".join(steps) if steps else "-"
     return case("build %s %s %s %s" % (shape, ty, name, script), "builder", shape=shape)
 
